@@ -236,6 +236,14 @@ def run(tier):
         ck.count(key, suite="K.dispatch")
         got = execute(req)
         again = execute(req)
+        if rep is not None and rep.split()[0] == "raise" and req["method"] in METHODS:
+            # the same unsupported request in a session that has just served a valid, larger request of the same method
+            execute(dict(base(), method=req["method"], via=req["via"], rows=21, cols=21 if (req["via"] or req["method"] in ("linbasex", "rbasex")) else 15))
+            primed = execute(req)
+            if primed != "raise" and got == "raise":
+                ck.violation(dict(site="Transform" if req["via"] else req["method"], method=req["method"], clause="accepted-after-valid-request"),
+                             {k: (list(v) if isinstance(v, tuple) else v) for k, v in req.items()},
+                             f"the request raises in a fresh session but is answered ('{primed}') after a valid larger request of the same method")
         show = {k: (list(v) if isinstance(v, tuple) else v) for k, v in req.items()}
         if rep is not None:
             want = rep.split()[0]
@@ -271,6 +279,9 @@ def run(tier):
             ck.violation(dict(sig, clause="unknown-reg"), show, "unknown regularisation accepted")
         elif req["out"] in ("bogus", "Same") and got != "raise":
             ck.violation(dict(sig, clause="unknown-out"), show, "unknown rbasex out accepted")
+        elif req["method"] in ("two_point", "three_point") and not req["via"] and not req["oneD"] and d == "inverse" \
+                and req["cols"] < (2 if req["method"] == "two_point" else 3) and got != "raise":
+            ck.violation(dict(sig, clause="dasch-too-narrow"), show, f"{req['method']} accepted a {req['cols']}-column half-image")
         elif req["method"] == "linbasex" and (req["rows"] != req["cols"] or req["cols"] % 2 == 0) and got != "raise":
             ck.violation(dict(sig, clause="linbasex-shape"), show, "non-square / even image accepted by linbasex")
         if len(ck.cov["samples"]) < 5 and got != "raise":
